@@ -25,6 +25,7 @@ from .hollow import HollowSession, hollow_tmgr
 
 import radical.pilot           as rp
 import radical.pilot.states    as rps
+import radical.pilot.task      as rp_task
 import radical.pilot.constants as rpc
 
 PID  = 'C06'
@@ -192,7 +193,16 @@ def histories(draw):
         i += k
     if draw(st.integers(0, 9)) == 0:
         batches.insert(draw(st.integers(0, len(batches))), [])
-    return {'kind': 'batches', 'n_tasks': n, 'via': via, 'batches': batches,
+    # the application waits on tasks between notifications (`Task.wait`, with and without an explicit
+    # state, the state given as a string or a list): [before batch, task, state(s)]
+    waits = []
+    if draw(st.integers(0, 2)) == 0:
+        for _ in range(draw(st.integers(1, 3))):
+            w = draw(st.sampled_from(['none', 'one', 'list']))
+            ws = None if w == 'none' else draw(st.sampled_from(ALL)) if w == 'one' else \
+                 draw(st.lists(st.sampled_from(ALL), min_size=1, max_size=3))
+            waits.append([draw(st.integers(0, len(batches))), draw(st.integers(0, n - 1)), ws])
+    return {'kind': 'batches', 'n_tasks': n, 'via': via, 'batches': batches, 'waits': waits,
             'mutating': draw(st.integers(0, 3)) == 0,
             'service': draw(st.integers(0, 3)) == 0}
 
@@ -267,6 +277,16 @@ def _stream_diff(real, model):
     if all(s in it for s in model):
         return 'extra'
     return 'different'
+
+
+class _WaitClock(object):
+    """virtual clock for the polling loop of Task.wait"""
+    def __init__(self):
+        self.now = 1000.0
+    def time(self):
+        return self.now
+    def sleep(self, dt):
+        self.now += max(dt, 0.01)
 
 
 class _Run(object):
@@ -352,6 +372,32 @@ class _Run(object):
             res.label('service_task_with_startup_info')
 
     # --------------------------------------------------------------------------
+    def wait(self, t, states):
+        """the application waits on a task (bounded): the call returns the task's state and
+        changes nothing - what the observers saw and what later notifications do stays the same"""
+        uid  = self.uids[t]
+        task = self.tasks[uid]
+        clock = _WaitClock()
+        old = rp_task.time
+        rp_task.time = clock
+        try:
+            got = task.wait(state=states, timeout=0.3)
+        except Exception as e:                    # noqa
+            self.res.fail(exc_sig('task_wait_raised', e), 'Task.wait(%r) for %s' % (states, uid))
+            self.dead = True
+            return
+        finally:
+            rp_task.time = old
+        self.res.label('task_wait', 'task_wait:%s' % ('final' if states is None else
+                       'list' if isinstance(states, list) else 'state'))
+        if got != self.model[uid] or task.state != self.model[uid]:
+            self.res.fail('task_wait_value', 'Task.wait(%r) for %s returned %r, task state %r, '
+                          'model %r' % (states, uid, got, task.state, self.model[uid]))
+            self.dead = True
+        if list(rps.FINAL) != FINALS:
+            self.res.fail('final_states_changed_by_wait', 'after Task.wait(%r): states.FINAL is %r'
+                          % (states, list(rps.FINAL)))
+
     def _errors(self, n0, raised):
         errs = [e[3] for e in self.sess.net.log[n0:] if e[0] == 'cb_error']
         if raised is not None:
@@ -481,8 +527,17 @@ def _run_batches(res, case):
     nt       = False
     n_ent    = 0
     max_b    = 0
-    for bi, batch in enumerate(case.get('batches', [])):
+    waits = [w for w in (case.get('waits') or [])
+             if isinstance(w, list) and len(w) == 3 and
+             (w[2] is None or w[2] in ALL or
+              (isinstance(w[2], list) and w[2] and all(x in ALL for x in w[2])))]
+    for bi, batch in enumerate(list(case.get('batches', [])) + [None]):
         if run.dead:
+            break
+        for w in waits:
+            if int(w[0]) == bi:
+                run.wait(int(w[1]) % n, w[2])
+        if batch is None or run.dead:
             break
         klass = run.feed(bi, batch)
         n_ent += len(klass)
@@ -554,6 +609,7 @@ def _run_pair(res, case):
 
 def run_case(case):
     res = CaseResult()
+    rps.FINAL[:] = FINALS                         # module state: every case starts from the documented list
     if case.get('kind') == 'pair':
         return _run_pair(res, case)
     return _run_batches(res, case)
